@@ -19,7 +19,13 @@ VOCAB_WORDS = ["None", "class", "dereference", "reference", "dictionary", "funct
 
 # ---- expressions: JSON form {"i": int} | {"s": hex} | {"f": hex16} | {"l": [...], "t": bool(tuple)} ----
 
+class Unsendable:
+    """an object Banana cannot send (BananaError: 'Banana cannot send ... objects')"""
+
+
 def to_py(e):
+    if "x" in e:
+        return Unsendable() if e["x"] else None
     if "i" in e:
         return e["i"]
     if "s" in e:
@@ -45,6 +51,8 @@ def show_py(o) -> str:
 
 
 def show_case_expr(e) -> str:
+    if "x" in e:
+        return "?"
     if "i" in e:
         return "i" + str(e["i"])
     if "s" in e:
@@ -111,6 +119,19 @@ def impl(case) -> str:
         return data.hex() + "|" + _feed(case["pb"], chunks(case["cuts"], data))
     if k == "raw":
         return _feed(case["pb"], chunks(case["cuts"], bytes.fromhex(case["data"])))
+    if k == "hist":
+        # several sendEncoded calls on ONE connection; the transport is observed after every call
+        b, t, _ = _proto(case["pb"])
+        flags = ""
+        for e in case["es"]:
+            before = len(t.value())
+            try:
+                b.sendEncoded(to_py(e))
+                flags += "A"
+            except banana.BananaError:
+                flags += "R" if len(t.value()) == before else "W"       # W: a refused call wrote something
+        data = t.value()
+        return flags + "|" + data.hex() + "|" + _feed(case["pb"], chunks(case["cuts"], data))
     if k == "b128":
         out = []
         banana.int2b128(case["n"], out.append)
@@ -134,6 +155,8 @@ def ref_b128(n):
 
 
 def ref_encode(o, pb):
+    if o is None or isinstance(o, Unsendable):
+        raise OverflowError
     if isinstance(o, (list, tuple)):
         if len(o) > SIZE_LIMIT:
             raise OverflowError
@@ -172,6 +195,27 @@ def oracle(case, obs):
         if outs != show_case_expr(case["e"]):
             return Failure(case, f"decoded {outs[:100]} != sent {show_case_expr(case['e'])[:100]} (cuts {case['cuts'][:10]})",
                            "rt-differs" if not case["cuts"] else "rt-differs-split")
+        return None
+    if k == "hist":
+        want_flags, want_bytes, want_outs = "", b"", []
+        for e in case["es"]:
+            try:
+                want_bytes += ref_encode(to_py(e), case["pb"])
+                want_flags += "A"
+                want_outs.append(show_case_expr(e))
+            except OverflowError:
+                want_flags += "R"
+        flags, enc, outs, err = obs.split("|")
+        if "W" in flags:
+            return Failure(case, f"a refused sendEncoded wrote to the transport (calls: {flags})", "refusal-wrote")
+        if flags != want_flags:
+            return Failure(case, f"accept/refuse pattern {flags}, expected {want_flags}", "history-refusal")
+        if enc != want_bytes.hex():
+            return Failure(case, f"after the calls {flags} the transport holds something other than the encodings of "
+                                 f"the accepted expressions: {enc[:80]} vs {want_bytes.hex()[:80]}", "history-bytes")
+        if err != "ok" or outs != " ".join(want_outs):
+            return Failure(case, f"the receiver got {outs[:100]}|{err}, sent (accepted) {' '.join(want_outs)[:100]}",
+                           "history-decode")
         return None
     if k == "raw":
         whole = _feed(case["pb"], [bytes.fromhex(case["data"])] if case["data"] else [])
@@ -289,8 +333,59 @@ def _mutate(rng, d: bytes) -> bytes:
     return bytes(b)
 
 
+def _bad_atom(rng, heavy=False):
+    """something _encode must refuse"""
+    k = rng.random()
+    if heavy and k < 0.5:
+        return {"s": "61" * (SIZE_LIMIT + 1)}
+    if k < 0.6:
+        return {"i": rng.choice([LONG + 1, -LONG - 1, 2 ** 449, -2 ** 500, 2 ** 448])}
+    return {"x": rng.choice([0, 1])}                      # None / an arbitrary object: unsupported type
+
+
+def _nest_bad(rng, bad, depth):
+    """put `bad` at the given nesting depth, AFTER some encodable siblings at every level"""
+    e = bad
+    for _ in range(depth):
+        before = [_fix_nan(gen_expr(rng, rng.choice([0, 0, 1]))) for _ in range(rng.choice([1, 1, 2, 3]))]
+        after = [_fix_nan(gen_expr(rng, 0)) for _ in range(rng.choice([0, 0, 1]))]
+        e = {"l": before + [e] + after, "t": rng.random() < 0.3}
+    return e
+
+
+def gen_history(rng, heavy=False):
+    es = []
+    for _ in range(rng.choice([2, 3, 3, 4, 5])):
+        if rng.random() < 0.45:
+            es.append(_nest_bad(rng, _bad_atom(rng, heavy), rng.choice([0, 1, 1, 2, 3])))
+        else:
+            es.append(_fix_nan(gen_expr(rng, rng.choice([0, 1, 2]))))
+    if all(_refused(e) for e in es):
+        es.append({"l": [{"i": 1}, {"s": "6162"}], "t": False})
+    pb = rng.random() < 0.3
+    ln = sum(len(ref_encode(to_py(e), pb)) for e in es if not _refused(e))
+    return {"kind": "hist", "pb": pb, "es": es, "cuts": _rand_cuts(rng, min(ln, 4000))}
+
+
+def _refused(e) -> bool:
+    try:
+        ref_encode(to_py(e), False)
+        return False
+    except OverflowError:
+        return True
+
+
 def corpus():
     cs = []
+    # a refusal part-way through a nested structure, then a valid message on the same connection (seeded C44-B)
+    cs.append({"kind": "hist", "pb": False, "cuts": [],
+               "es": [{"l": [{"i": 1}, {"s": "6162"}, {"l": [{"i": 7}, {"i": LONG + 1}], "t": False}], "t": False},
+                      {"l": [{"i": 2}, {"s": "6364"}], "t": False}]})
+    cs.append({"kind": "hist", "pb": True, "cuts": [1, 2],
+               "es": [{"l": [{"s": "6c697374"}, {"x": 0}], "t": True}, {"i": 5},
+                      {"l": [{"f": FLOATS[3]}, {"l": [{"x": 1}], "t": False}], "t": False}, {"s": "6f6b"}]})
+    cs.append({"kind": "hist", "pb": False, "cuts": [],
+               "es": [{"l": [{"i": 3}, {"s": "61" * (SIZE_LIMIT + 1)}], "t": False}, {"l": [], "t": False}]})
     for n in (64, 65):
         for tail in ("", "81", "99"):
             cs.append({"kind": "raw", "pb": False, "data": "01" * n + tail, "cuts": []})
@@ -349,6 +444,8 @@ def gen(rng, tier):
         except OverflowError:
             ln = 0
         cases.append({"kind": "rt", "pb": pb, "e": e, "cuts": _rand_cuts(rng, ln)})
+    for i in range(n // 3):
+        cases.append(gen_history(rng, heavy=(i % 97 == 0)))
     for _ in range(n):
         es = [_fix_nan(gen_expr(rng, rng.choice([0, 1, 2]))) for _ in range(rng.choice([1, 1, 2, 3]))]
         pb = rng.random() < 0.4
@@ -362,6 +459,10 @@ def gen(rng, tier):
 
 
 # ---- model terms ----
+
+def _has_x(e) -> bool:
+    return "x" in e or any(_has_x(x) for x in e.get("l", []))
+
 
 def coq_sexp(e) -> str:
     if "i" in e:
@@ -395,6 +496,10 @@ def to_coq(case):
         if len(case["data"]) > 3000:
             return None
         return f"CRaw {coq_bool(case['pb'])} {coq_bytes(bytes.fromhex(case['data']))} {_cuts(case['cuts'])}"
+    if k == "hist":
+        if any(_has_x(e) for e in case["es"]) or sum(_size(e) for e in case["es"]) > 1500:
+            return None                 # unsupported Python types have no counterpart in the model: oracle only
+        return f"CHist {coq_bool(case['pb'])} {coq_list([coq_sexp(e) for e in case['es']], 'sexp')} {_cuts(case['cuts'])}"
     if k == "b128":
         return f"CB128 {case['n']}%N"
     if k == "from":
@@ -408,6 +513,9 @@ def hist(case, obs):
         return "rt:" + ("refused" if obs.startswith("E:") else ("split" if case["cuts"] else "whole")) + (":pb" if case["pb"] else "")
     if k == "raw":
         return "raw:" + obs.split("|")[-1]
+    if k == "hist":
+        f = obs.split("|")[0]
+        return "hist:" + ("refusal-then-accept" if "RA" in f or "WA" in f else ("with-refusal" if "R" in f else "all-accepted"))
     return k
 
 
@@ -435,6 +543,16 @@ def shrink(case):
                 yield {**case, "e": e["l"][i]}
         if "s" in e and len(e["s"]) > 2:
             yield {**case, "e": {"s": e["s"][: (len(e["s"]) // 4) * 2]}}
+    elif k == "hist":
+        es = case["es"]
+        if case["cuts"]:
+            yield {**case, "cuts": []}
+        for i in range(len(es)):
+            yield {**case, "es": es[:i] + es[i + 1:]}
+        for i, e in enumerate(es):
+            if "l" in e:
+                for j in range(len(e["l"])):
+                    yield {**case, "es": es[:i] + [{**e, "l": e["l"][:j] + e["l"][j + 1:]}] + es[i + 1:]}
     elif k == "raw":
         d = case["data"]
         if case["cuts"]:
@@ -456,15 +574,18 @@ SPEC = Spec(
     shrink=shrink,
     histogram=hist,
     describe=describe,
-    nontrivial=lambda c, o: c["kind"] in ("rt", "raw") and o not in ("|ok",),
+    nontrivial=lambda c, o: c["kind"] in ("rt", "raw", "hist") and o not in ("|ok",),
     case_timeout=20.0,
     rule="b128/from: boundary and random integers up to 2^500, random digit strings; rt: every boundary integer "
          "(0, +-1, +-2^31 +-1, 2^63, 2^64, +-(2^448-1), +-2^448 refused) whole and byte-at-a-time, every vocabulary "
          "word in both dialects, NaN/inf/-0.0/denormal floats, every 2-way (thorough: 3-way) split of two structured "
          "messages incl. depth 6, random expressions depth 0-6 (tuples and lists, near-vocabulary words, strings that "
          "look like banana syntax, 127/128/129-byte strings) under random segmentations (whole, byte-wise, one cut, "
-         "Fibonacci-sized chunks), strings/lists at SIZE_LIMIT and SIZE_LIMIT+1 (oracle only); raw: valid streams "
-         "mutated (truncate, replace a byte by a type byte / 0x7f / bit flip, insert, insert 60-66 digit bytes), "
+         "Fibonacci-sized chunks), strings/lists at SIZE_LIMIT and SIZE_LIMIT+1 (oracle only); hist: 2-5 sendEncoded calls on ONE "
+         "connection, 45% of them must be refused with the offending element (int beyond +-(2^448-1), unsupported "
+         "type, rarely a SIZE_LIMIT+1 string) nested 0-3 levels deep AFTER encodable siblings, checking after every "
+         "call that a refusal wrote nothing and that the receiver gets exactly the accepted expressions; raw: valid "
+         "streams mutated (truncate, replace a byte by a type byte / 0x7f / bit flip, insert, insert 60-66 digit bytes), "
          "prefixes of 64/65 digits with and without a type byte. non-trivial = rt/raw with at least one delivered "
          "expression or an exception",
     trusted=[
